@@ -174,8 +174,47 @@ func genUnsubMulti(r *hx.Rng) []hx.Group {
 	return evs
 }
 
+// more requests in flight than the initial capacity of the acknowledgement queue (16), after a number of completed
+// ones that leaves the queue's head anywhere: every one of them must complete, in order, once acknowledged
+func genDeepBurst(r *hx.Rng) []hx.Group {
+	evs := []hx.Group{hx.GB([]int64{0}, connack(false, 0))}
+	pid, cb := 10+r.Intn(50), 20
+	q := 1 + r.Intn(2)
+	term := map[int]int{1: mq.PUBACK, 2: mq.PUBCOMP}[q]
+	for k, n := 0, r.Intn(20); k < n; k++ { // completed one at a time
+		pid++
+		cb++
+		evs = append(evs, evPub(q, false, pid, cb, "o", r.Bytes(1)))
+		if q == 2 {
+			evs = append(evs, evIn(mq.Ack(mq.PUBREC, pid)))
+		}
+		evs = append(evs, evIn(mq.Ack(term, pid)))
+	}
+	var open []int
+	for k, n := 0, 14+r.Intn(22); k < n; k++ {
+		pid++
+		cb++
+		if cb%7 == 3 {
+			cb++ // (callbacks of these ids return an error: not here)
+		}
+		evs = append(evs, evPub(q, false, pid, cb, "o", r.Bytes(1+r.Intn(2))))
+		open = append(open, pid)
+	}
+	if q == 2 {
+		for _, p := range open {
+			evs = append(evs, evIn(mq.Ack(mq.PUBREC, p)))
+		}
+	}
+	for _, p := range open {
+		evs = append(evs, evIn(mq.Ack(term, p)))
+	}
+	return evs
+}
+
 func genScript(r *hx.Rng) []hx.Group {
 	switch k := r.Intn(100); {
+	case k < 8:
+		return genDeepBurst(r)
 	case k < 15:
 		return genBatches(r)
 	case k < 30:
